@@ -8,7 +8,7 @@ import time
 
 VERIF = os.path.dirname(os.path.dirname(os.path.abspath(__file__)))
 EVID = os.path.join(VERIF, "evidence")
-REPLAY = os.path.join(EVID, "replay")
+REPLAY = os.environ.get("VERIF_REPLAY_DIR") or os.path.join(EVID, "replay")
 FINDINGS = os.path.join(VERIF, "known_findings.json")
 
 
